@@ -214,14 +214,16 @@ PROPS = {
                         "injectivity of the witness serialisation for a fixed extension degree is not separately proved"],
     },
     "C01": {
-        "units": ["prove", "verify", "ctors", "commit"],
+        "alias_tags": {"verify_rel": ["C02"], "verify": ["C04", "C05"], "prove": ["C04", "C06"], "transcripts": ["C04"]},
+        "units": ["prove", "verify", "verify_rel", "transcripts", "ctors", "commit"],
         "design_ref": "DESIGN.md section 7, C01",
         "technique": "contract-based deductive verification (Verus): prover totality on valid witnesses, output shape agreement with the verifier's shape checks, shared padding contract; the algebraic completeness of the folding argument is explicitly undecided",
         "claim": "Decided part: for every statement built through the validating constructors and every valid witness, prove_with_rng returns a proof unless the transcript rejects "
                  "(identity point or zero challenge: ProofError::VerificationFailed) - every other error, index, overflow and multiscalar-length obligation is proved unreachable for "
                  "all bit lengths, aggregation factors <= capacity, extension degrees, values (0, 2^n-1, value == promise included), seeded or not, any RNG; the proof it returns has "
                  "li.len() == ri.len() == log2(n*m) and d1.len() == degree, exactly what the verifier's shape checks (proved in unit verify) demand, and both sides compute the same "
-                 "padding for every capacity >= m. UNDECIDED, stated as such: that the messages produced by the folding loop satisfy the verifier's equation (algebraic "
+                 "padding for every capacity >= m; prover and verifier derive their challenges from the same specified log (C04 obligations) and the verifier evaluates exactly "
+                 "the specified equation (C02 obligations - necessary for completeness, so their failure is reported under C01 too). UNDECIDED, stated as such: that the messages produced by the folding loop satisfy the verifier's equation (algebraic "
                  "completeness of the weighted-inner-product argument); a change that only breaks the folding algebra is not detected by the deductive check.",
         "assumptions": ["algebraic completeness of the folding rounds is not proved (weeks of work; named, not approximated)",
                         "'for whatever RNG' holds up to the transcript-rejection event (probability about 2^-250 per challenge)"],
